@@ -379,6 +379,12 @@ func (ss *SortedSet) searchReverse(nodes []*SortedSetNode, excludeStart, exclude
 		}
 	}
 
+	// x is still the header when no node lies at or below end: the header is a
+	// sentinel (key "", score 0), not a member, and must never be returned.
+	if x == ss.header {
+		return nodes
+	}
+
 	for x != nil && limit > 0 {
 		if excludeStart {
 			if x.score <= start {
@@ -519,7 +525,8 @@ func (ss *SortedSet) FindRank(key string) int {
 				x = x.level[i].forward
 			}
 
-			if x.key == key {
+			// the header sentinel also has the key "": it is not a member
+			if x != ss.header && x.key == key {
 				return rank
 			}
 		}
